@@ -45,6 +45,7 @@ type pipelineStateMachine struct {
 	completedCallbackFn func(err error)          // pipeline execute completed will invoke
 	mutex               sync.Mutex
 	completed           atomic.Bool
+	firstErr            error // first error of all stages, pipeline completes with it(guarded by mutex)
 
 	tracker *trackerpkg.StageTracker
 }
@@ -112,10 +113,17 @@ func (sm *pipelineStateMachine) completeStage(stageID string, err error) {
 
 		s.stage.Complete()
 	}
+	// NOTE: must keep the error of failure stage, the last completed stage maybe execute successfully.
+	if err != nil && sm.firstErr == nil {
+		sm.firstErr = err
+	}
 	sm.mutex.Unlock()
 
 	if sm.pending.Dec() == 0 {
 		// check if all stages execute completed
+		sm.mutex.Lock()
+		err = sm.firstErr
+		sm.mutex.Unlock()
 		sm.complete(err)
 	}
 }
